@@ -34,6 +34,13 @@ Theorem c07_load_error_report_as_modelled :
 Proof. reflexivity. Qed.
 Print Assumptions c07_load_error_report_as_modelled.
 
+(* the process-level state of expr_parser / merchant_engine / merchant_utils / modifier_parser is exactly what the model
+   has (a new module-level dict or any other cross-call storage breaks this) *)
+Theorem c07_process_state_as_modelled :
+  C07CacheKeys.process_level_state = expected_process_state C07CacheKeys.reports_load_errors.
+Proof. reflexivity. Qed.
+Print Assumptions c07_process_state_as_modelled.
+
 (* ---- caches ------------------------------------------------------------------------------------ *)
 (* invariant: every cache entry equals recomputation from its key — in every reachable state *)
 Theorem c07_cache_invariant :
